@@ -64,6 +64,11 @@ def f_from_2047_quote(m):
     m["from"] = "=?utf-8?q?Zo=C3=AB_=22Z=22_=CE=A9mega?= <zoe@example.com>"
 
 
+def f_from_2047_crlf(m):
+    # an encoded word that decodes to CR LF inside a display name: nothing of it may reach a quoted string raw, and the message stays fetchable
+    m["from"] = "=?utf-8?q?two=0D=0Alines?= <alice@example.com>"
+
+
 def f_subj_folded(m):
     m["subject"] = b"a long subject that is\r\n folded over\r\n\tthree lines"
 
